@@ -123,8 +123,11 @@ def run_case(case):
     if not inj.fired:
       # the bundle ended (naturally) before reaching this position; state may legitimately have changed if ok
       if r.ok:
-        out.fail('C04:harness:position-not-reached', 'fault %s#%d not reached but twin counted n=%d m=%d' % (kind, k, n, m))
-        return finish(out, hr, st8, uas)
+        # The subject needed fewer doc actions than the twin (recalculation left dirty by an earlier rolled-back
+        # attempt changes how many calc-phase doc actions occur): nothing to judge here; the final un-faulted
+        # run below still has to match the twin. Rebuild the subject and go on.
+        out.cls('position-not-reached(not judged)')
+        hr.doc = replay_history(hr.doc.log[:log_pos])
       continue
     st8['w'] += 1
     if inj.doc_actions_before_fault >= 1:
